@@ -643,8 +643,8 @@ Section Spec.
       rewrite Hlo, Hhi. exact Hrange.
   Qed.
 
-  (* ---- on an unchanging map the iterator ends within (number of entries + 1) Next calls, and
-     drains exactly the range (used for TRange / TRangeRev) ---- *)
+  (* On an unchanging map the iterator ends within (number of entries + 1) Next calls and drains
+     exactly the range: CProofsDrain.ai_drain_range. *)
 
 End Spec.
 
